@@ -2,6 +2,13 @@
   Helper lemmas (RunL): unconditional no-panic.
 -/
 import TB.Spec.ExportSpec
+import TB.Lemmas.RunB
+import TB.Lemmas.RunH
 namespace TB.RunL
+
+/-- the writer has no panic branch -/
+theorem writeSegs_total (st : St) (pairs : List (WSeg × Option Path)) (buf : Bytes) (start : Nat) :
+    (writeSegs st pairs buf start).2 ≠ .panic := by
+  fun_induction writeSegs st pairs buf start <;> simp_all
 
 end TB.RunL
